@@ -413,7 +413,13 @@ sstat MainSolver::check() {
     if (rval == s_Undef) {
         try {
             rval = solve();
-        } catch (std::overflow_error const & error) { rval = s_Error; }
+        } catch (std::overflow_error const & error) {
+            // The search was left in the middle: take back its assignments, as solve() does when it returns normally,
+            // so that a later check-sat starts from a consistent state instead of answering from the interrupted one
+            smt_solver->clearSearch();
+            status = s_Error;
+            rval = s_Error;
+        }
         if (rval == s_False) {
             assert(not smt_solver->isOK());
             rememberUnsatFrame(smt_solver->getConflictFrame());
